@@ -68,6 +68,11 @@ ASSUMPTIONS = [
     "rarely used parameters (name, extra_def_dicts empty in several forms, error_handler without warnings), column "
     "order incl. the position of the definition column, many-column documents and numeric edge values (-0.0, NaN, "
     "1e308, big ints) are generator dimensions (tested)",
+    "the clean clause is also checked with a precondition established independently of the sidecar validator "
+    "(assembled_valid: every template with each {column} replaced by each of that column's own annotations validates on "
+    "its own with HedValidator) on every rule-abiding document of every stream, incl. a stream of strings naming 2-3 "
+    "different columns in either order relative to the alphabetical order of their names (tested; in Coq the "
+    "pairing of references and combinations is abstract in V_full)",
     "equivalence of the entry points (Sidecar.validate, SidecarValidator.validate, list of files, file path, two merged "
     "files) and independence of the answer from an earlier validate() on the same object are TESTED only (every "
     "generated case is run through one of them in rotation and compared with the entry-point-agnostic model)",
@@ -266,17 +271,57 @@ def answer_queries(ds, queries):
     return out
 
 
+_HV = None
+
+
+def assembled_valid(doc):
+    """The precondition "assembled from individually valid annotation strings", established WITHOUT the sidecar
+    validator: every annotation a row can assemble -- each template with every {column} replaced (plain str.replace)
+    by one of THAT column's own annotations -- is validated on its own by the string validator.
+    Returns True / a witness string for the first invalid assembly / None when not applicable (not rule-abiding,
+    definitions or {HED} involved)."""
+    global _HV
+    from hed.models.hed_string import HedString
+    from hed.validator import HedValidator
+    if not struct_ok(doc):
+        return None
+    text = json.dumps(doc)
+    if "def" in text.lower() or "{HED}" in text:
+        return None
+    if _HV is None:
+        _HV = HedValidator(schema())
+    S = schema()
+    cols = {k: col_strings(v) for k, v in doc.items() if isinstance(v, dict) and "HED" in v}
+    for k, strs in cols.items():
+        for template in strs:
+            names = sorted(set(REF_RE.findall(template)))
+            for values in itertools.product(*[cols[n] for n in names]):
+                t = template
+                for n, val in zip(names, values):
+                    t = t.replace("{" + n + "}", val)
+                issues = _HV.validate(HedString(t, S), allow_placeholders=True)
+                bad = [c for c, e in canon(issues) if e]
+                if bad:
+                    return f"{k!r}: {template!r} -> {t!r}: {bad}"
+    return True
+
+
 def work(arg):
-    """(text, phase-1 output of the model or None) -> (impl result, answer table or error string)."""
+    """(text, phase-1 output of the model or None, mode) -> (impl result, answer table or error string,
+    assembled_valid verdict)."""
     text, q, mode = arg
     r = impl_one(text, mode)
+    try:
+        assembled = assembled_valid(json.loads(text))
+    except Exception as e:  # noqa   (the independent precondition could not be established: clause not applied)
+        assembled = "precondition-error:" + type(e).__name__
     table = None
     if q is not None and isinstance(q, list) and q and q[0] != "ERR":
         try:
             table = answer_queries([sxs(s) for s in q[0]], q[1:])
         except Exception as e:  # noqa
             table = "answer-error:" + type(e).__name__ + ":" + str(e)[:100]
-    return r, table
+    return r, table, assembled
 
 
 # ---------------------------------------------------------------- specification side (independent python)
@@ -498,7 +543,12 @@ def oracle(case, r, res):
         # definition strings may hold '#' (the placeholder rule is about the entries outside definitions); not covered
         # by the Coq predicate struct_ok, checked on the implementation only
         res.report("wellformed-clean", rep, f"error codes {errs} on a rule-abiding sidecar with placeholder definitions")
-    if case.get("valid_strings") and ok and errs:
+    if ok and case.get("assembled") is True and errs:
+        # precondition established independently of the sidecar validator (assembled_valid): every annotation a row
+        # can assemble from this rule-abiding sidecar is valid on its own
+        res.report("wellformed-clean", rep, f"error codes {errs} on a rule-abiding sidecar all of whose assembled "
+                                            "annotations (each reference replaced by its own column's text) are valid")
+    elif case.get("valid_strings") and ok and errs:
         res.report("wellformed-clean", rep, f"error codes {errs} on a structurally well-formed sidecar")
     elif ok and set(errs) & STRUCT_ONLY_CODES:
         # whatever the strings are worth, these codes are never produced by string-level validation
@@ -911,6 +961,45 @@ def gen_definition_docs(rng, n):
     return out
 
 
+def gen_multiref(rng):
+    """Rule-abiding sidecar with one string naming two or three DIFFERENT columns, in either text order relative to
+    the alphabetical order of the column names.  The template repeats, at another nesting level, an annotation of
+    one referenced column, so that every genuine assembly is valid while an assembly that hands a reference the
+    text of ANOTHER column is not (dimension: which column each reference is filled from)."""
+    pools = [["Red", "Blue"], ["Square", "Circle"], ["Press", "Walk"], ["Large", "Small"]]
+    rng.shuffle(pools)
+    k = rng.choice([2, 2, 3])
+    names = rng.sample(COLNAMES, k + 1)
+    host, leaves = names[0], names[1:]
+    rng.shuffle(leaves)                                   # text order of the references
+    doc = {}
+    vals = {}
+    for i, nm in enumerate(leaves):
+        if rng.random() < 0.2:
+            vals[nm] = [rng.choice(["Item-count/#", "Label/#", "ID/#"])]
+            doc[nm] = {"HED": vals[nm][0]}
+        else:
+            vals[nm] = list(pools[i])
+            doc[nm] = {"HED": dict(zip(rng.sample(["go", "stop", "a", "b", "1"], 2), vals[nm]))}
+    a, b = leaves[0], leaves[1]
+    xa, yb = rng.choice(vals[a]), rng.choice(vals[b])
+    lit_a = xa.replace("#", "2")
+    lit_b = yb.replace("#", "3")
+    forms = [f"{{{a}}}, ({{{b}}}, {lit_a})", f"({{{a}}}, {lit_b}), ({{{b}}}, Green, {lit_a})",
+             f"({{{b}}}, {lit_a}), {{{a}}}", f"{{{a}}}, ({lit_a}, ({{{b}}}, Green))"]
+    if k == 3:
+        c = leaves[2]
+        forms = [f"{{{a}}}, ({{{b}}}, {{{c}}}, {lit_a})", f"({{{a}}}, {lit_b}), ({{{c}}}, Green, ({{{b}}}, {lit_a}))"]
+    t = rng.choice(forms)
+    if rng.random() < 0.5:
+        doc[host] = {"HED": {"show": t, "hide": "Gray"}}
+    else:
+        doc[host] = {"HED": t + ", Parameter-value/#"}
+    items = list(doc.items())
+    rng.shuffle(items)
+    return dict(items)
+
+
 def gen_malformed(rng):
     """Random junk at every depth (separate malformed stream)."""
     pool = [None, True, False, 0, 1, 2.5, -0.0, 1e308, float("nan"), 10 ** 30, -1, "", "Red", "Red/#", "{a}", "{b}", "{zz}", "{HED}", "Label/#, {b}", "}{",
@@ -990,6 +1079,8 @@ def make_cases(tier, seed, widen):
             fx = inject_fault(doc, kinds, rng)
             if fx:
                 add(fx[0], "fault", fault=fx[1], expect=fx[2])
+    for _ in range((150 if tier == "quick" else 1500) * (3 if widen else 1)):
+        add(gen_multiref(rng), "multiref")     # validity of the strings is established by assembled_valid, not claimed
     nmal = (600 if tier == "quick" else 8000) * (3 if widen else 1)
     for _ in range(nmal):
         add(gen_malformed(rng), "malformed")
@@ -1050,6 +1141,9 @@ def run(tier, seed, res, model_ok=True, proof_ok=True):
         q1 = C.run_driver(exe, [C.to_sx(["Q", FIXED, jsx(c["doc"])]) for c in cases])
     with Pool(int(C.JOBS)) as pool:
         worked = pool.map(work, list(zip(texts, q1, [c["mode"] for c in cases])), chunksize=64)
+    for c, w in zip(cases, worked):
+        c["assembled"] = w[2]
+    worked = [(w[0], w[1]) for w in worked]
     impl = [w[0] for w in worked]
 
     # implementation-side oracle (independent of the model)
@@ -1154,6 +1248,8 @@ def run(tier, seed, res, model_ok=True, proof_ok=True):
         "reached_string_validation": reached,
         "helper_function_cases": helper_n,
         "struct_ok_true_cases": structok_n,
+        "assembled_valid_true_cases": sum(1 for c in cases if c.get("assembled") is True),
+        "assembled_valid_multiref_true": sum(1 for c in cases if c.get("assembled") is True and c["kind"] == "multiref"),
         "histogram": dict(sorted(hist.items())),
         "fault_histogram": faults,
     }
@@ -1175,6 +1271,11 @@ def replay(payload):
     c = {"doc": doc, "text": text, "kind": case.get("kind", "replay"), "fault": case.get("fault"),
          "mode": int(case.get("mode", 0) or 0),
          "valid_strings": case.get("kind") == "wellformed"}
+    try:
+        c["assembled"] = assembled_valid(doc)
+    except Exception as e:  # noqa
+        c["assembled"] = "precondition-error:" + type(e).__name__
+    print("assembled annotations valid on their own:", c["assembled"])
     if payload.get("clause") == "fault-flagged":
         m = re.search(r"expected (\S+),", str(payload.get("detail", "")))
         if m:
